@@ -82,6 +82,11 @@ expressions
     `str` literals of `[A-Za-z0-9_ .:-]*` as opaque `String`s (`PYSTR`); a spec'd METHOD call whose trailing arguments are passed by
     keyword, in parameter order (`PureSpec.call_keywords`: all parameter names of the method); the builtin `int` as a spec'd call
     (`calls[(None, "int")]`, refused when the module re-binds the name)
+  * pure functions, W32: `while True:` (not nested; no loop / comprehension / lambda inside; no `else`) → `for _ in List.replicate fuel ()`
+    with a `broke` flag set before every `break`; after the loop `return none` = OUT OF FUEL; the function's result becomes `Option T`
+    (`some r` = Python's result; refused when the result is already Optional or the spec has no `(fuel : Nat)` binder); `hasattr(obj, name)`
+    through `PureSpec.hasattr`; `s.endswith("<ASCII literal>")` on a `str` (→ `List.isSuffixOf`); f-string interpolation of a provably
+    non-negative int (→ `Nat.toDigits 10`); `PureSpec.final_store`: the last statement `self.<attr>[k] = <parameter>` rendered as `return k`
   * several `def`s of one name in a class / module (typing.overload stubs): the LAST one is translated (Python's binding)
   * function headers: decorators `property`, `override`, `staticmethod` only; parameter defaults must be constants (they concern the
     callers; the rendering takes every parameter explicitly); annotations are never consulted
